@@ -5,7 +5,7 @@ import sys
 CONTROL_MUTANTS = [
     "signview-tst", "fmt-width-short", "pair-order-far", "auxflag-sbb-drop-c", "boundary-contains-le", "ownmerge-cond-assume-c10",
     "reset-drop-final", "span-top-width", "deepcopy-share-raw", "cksum-hex-256", "segimg-filesz-return", "psize-pack-tail",
-    "boundidx-sh2-fcnvsd", "addvertex-fastpath", "merge-early-return", "raise-open-narrow",
+    "boundidx-sh2-fcnvsd", "addvertex-fastpath", "merge-early-return", "raise-open-narrow", "index-split-or", "c07-pair-order-far",
 ]
 
 
